@@ -71,7 +71,7 @@ pub fn check_triple(b: u64, e: u64, l: u64, all_sbn: bool) -> Option<(String, St
 
 pub fn run(thorough: bool) -> i32 {
     let mut rep = Report::new("C07", "exploration", if thorough { "thorough" } else { "quick" });
-    let (bm, em, lm) = if thorough { (64u64, 24u64, 4000u64) } else { (32, 12, 1500) };
+    let (bm, em, lm) = if thorough { (96u64, 32u64, 6000u64) } else { (32, 12, 1500) };
     // small grid: one work item per (B, E)
     let mut items: Vec<(u64, u64)> = Vec::new();
     for b in 1..=bm {
